@@ -331,7 +331,7 @@ var _ = strings.Fields
 
 func l1HeadOf(n uint64) *core.L1Head { return &core.L1Head{BlockNumber: n, BlockHash: F(n), StateRoot: F(1)} }
 
-const rule = "twin(pruned,unpruned) + extracted pruner model; predicate: floor bound, retained unchanged (accessors, state, filtered event queries), state from floor-1, below floor pruned-or-exact, resume, revert/extend; pruner service, Run loop, historyprunner migration"
+const rule = "twin(pruned,unpruned) + extracted pruner model; predicate: floor bound, retained unchanged (accessors, state, filtered event queries), state from floor-1, below floor pruned-or-exact, resume, revert/extend; pruner service, Run loop; historyprunner migration: every Migrate call (complete, cancelled, failed batch write, crash image; any number of starts) tied to the extracted C16/Migrate.v (committed batches, database after every commit incl. history-log and scratch VALUES, result, resume blob, cut-off), completed migration = the theorems' mig_final"
 
 func dispatch(c *hx.Ctx, or *hx.Oracle, sc *Scenario, tag string) {
 	c.Hist["kind:"+sc.Kind]++
@@ -385,9 +385,14 @@ func main() {
 		}
 	}
 	g := hx.NewRNG(c.Seed)
-	short, migs, loops := 10, 14, 2
+	short, migs, loops := 10, 10, 2 // (migs 14 -> 10: the migration corpus grew by five scenarios that run first)
 	if c.Thorough() {
 		short, migs, loops = 120, 150, 12
+	}
+	only := os.Getenv("C16_ONLY") // development: "migrate" runs the migration family only, C16_MIGS scenarios
+	if only == "migrate" {
+		short, loops = 0, 0
+		fmt.Sscan(os.Getenv("C16_MIGS"), &migs)
 	}
 	t0 := time.Now()
 	for i := 0; i < short; i++ {
@@ -428,6 +433,9 @@ func main() {
 	longs := []bool{c.Seed%2 == 0}
 	if c.Thorough() {
 		longs = []bool{false, true, false, true}
+	}
+	if only != "" {
+		longs = nil
 	}
 	for i, ns := range longs {
 		dispatch(c, or, longScenario(g.Fork(777+uint64(i)), ns), "long")
